@@ -156,6 +156,13 @@ def check_pattern(case):
     tol = 1e-12 * 100 / h**order
     if np.any(np.abs(comb - (alpha * da + beta * db)) > tol):
         raise Violation("nonlinear", f"L={L} bits={bits} order={order} periodic={periodic}")
+    # homogeneity under powers of two is exact in floating point (no rounding, no under- or overflow here): tiny and
+    # huge values are differentiated like any others
+    for e in (-200, -80, -30, 40, 300):
+        ds = mk_field(a * 2.0**e, valid, h, periodic).diff("x", order=order).array[:, 0]
+        if not np.array_equal(ds, da * 2.0**e):
+            raise Violation("not-homogeneous", f"L={L} bits={bits} order={order} periodic={periodic}: diff(2^{e} f) differs "
+                                               f"from 2^{e} diff(f): {ds[np.argmax(ds != da * 2.0**e)]!r}")
     # restrict2valid=False == all-true mask, validity kept
     res = fa.diff("x", order=order, restrict2valid=False)
     full = mk_field(a, [True] * L, h, periodic).diff("x", order=order).array[:, 0]
